@@ -15,58 +15,93 @@ Definition value_eqb (a b : value) : bool :=
   | VSlice x, VSlice y => list_eqb Nat.eqb x y
   | _, _ => false
   end.
+Definition fld_eqb (a b : str * value) := seqb (fst a) (fst b) && value_eqb (snd a) (snd b).
+Definition out_eqb (a b : out) : bool :=
+  match a, b with
+  | OUnit, OUnit | ONoMethod, ONoMethod | OIllTyped, OIllTyped | OPanicUser, OPanicUser | OOutOfFuel, OOutOfFuel => true
+  | ORet r, ORet r' => list_eqb value_eqb r r'
+  | OPanicNil m, OPanicNil m' => seqb m m'
+  | ORecords l, ORecords l' => list_eqb (list_eqb fld_eqb) l l'
+  | _, _ => false
+  end.
 
-(* user function behaviours the Go driver can install *)
-Inductive beh := BNil | BConst (rs : list value) | BPanic.
-Definition beh_func (b : beh) : option ufunc :=
+(* the driver gives every call this much fuel: at most 3 activations nested in each other *)
+Definition FUEL := 3.
+
+(* user function behaviours the Go driver can install: perform the nested operations in order
+   (recovering their panics), then return the constants or panic *)
+Inductive beh := BNil | BConst (first : bool) (nested : list nop) (rs : list value) | BPanic (first : bool) (nested : list nop).
+Fixpoint seq_script (l : list nop) (r : ures) : script :=
+  match l with
+  | [] => SRet r
+  | o :: t => SDo o (fun _ => seq_script t r)
+  end.
+(* [first]: the "only on the first attempt" idiom - the function first reads <M>Calls() of the method
+   it serves and performs its nested operations only if the running call is the only record *)
+Definition guarded (self : str) (first : bool) (l : list nop) (r : ures) : script :=
+  if first
+  then SDo (NCalls self) (fun x => match x with ORecords [_] => seq_script l r | _ => SRet r end)
+  else seq_script l r.
+Definition beh_func (self : str) (b : beh) : option ufunc :=
   match b with
   | BNil => None
-  | BConst rs => Some (fun _ => URet rs)
-  | BPanic => Some (fun _ => UPanic)
+  | BConst first l rs => Some (fun _ => guarded self first l (URet rs))
+  | BPanic first l => Some (fun _ => guarded self first l UPanic)
   end.
 
 Inductive hop := HCall (m : str) (a : cargs) | HCalls (m : str) | HResetM (m : str) | HResetAll | HSetFunc (m : str) (b : beh).
 Definition to_op (h : hop) : op :=
   match h with
   | HCall m a => Call m a | HCalls m => Calls m | HResetM m => ResetM m | HResetAll => ResetAll
-  | HSetFunc m b => SetFunc m (beh_func b)
+  | HSetFunc m b => SetFunc m (beh_func m b)
   end.
 
-(* what the driver reports per step *)
+(* what the driver sees while a call runs, in order: user-function invocations with the values
+   received, and the outcome of every nested operation *)
+Inductive ievent := IInv (m : str) (args : list value) | INest (x : out).
 Inductive obs :=
 | ObUnit | ObNoMethod | ObIllTyped
-| ObRet (rs : list value) (invoked : list (str * list value))
+| ObRet (rs : list value) (seen : list ievent)
 | ObPanicNil (msg : str)
-| ObPanicUser (invoked : list (str * list value))
-| ObRecords (l : list (list (str * value))).
+| ObPanicUser (seen : list ievent)
+| ObOutOfFuel (seen : list ievent)
+| ObRecords (l : list (list (str * value)))
+| ObDeadlock.          (* the operation never returned (driver watchdog); the model never produces it *)
 
-Definition inv_of (ev : list event) := map (fun e => match e with EInvoke m a => (m, a) end) ev.
+Definition seen_of (ev : list event) : list ievent :=
+  flat_map (fun e => match e with EInvoke m a => [IInv m a] | ENested _ x => [INest x] | _ => [] end) ev.
 Definition obs_of (e : op * out * list event) : obs :=
   match e with
   | (_, OUnit, _) => ObUnit
   | (_, ONoMethod, _) => ObNoMethod
   | (_, OIllTyped, _) => ObIllTyped
-  | (_, ORet rs, ev) => ObRet rs (inv_of ev)
+  | (_, ORet rs, ev) => ObRet rs (seen_of ev)
   | (_, OPanicNil msg, _) => ObPanicNil msg
-  | (_, OPanicUser, ev) => ObPanicUser (inv_of ev)
+  | (_, OPanicUser, ev) => ObPanicUser (seen_of ev)
   | (_, ORecords l, _) => ObRecords l
+  | (_, OOutOfFuel, ev) => ObOutOfFuel (seen_of ev)
   end.
 
-Definition inv_eqb (a b : str * list value) := seqb (fst a) (fst b) && list_eqb value_eqb (snd a) (snd b).
-Definition fld_eqb (a b : str * value) := seqb (fst a) (fst b) && value_eqb (snd a) (snd b).
+Definition ievent_eqb (a b : ievent) :=
+  match a, b with
+  | IInv m x, IInv m' x' => seqb m m' && list_eqb value_eqb x x'
+  | INest x, INest x' => out_eqb x x'
+  | _, _ => false
+  end.
 Definition obs_eqb (a b : obs) : bool :=
   match a, b with
   | ObUnit, ObUnit | ObNoMethod, ObNoMethod | ObIllTyped, ObIllTyped => true
-  | ObRet r i, ObRet r' i' => list_eqb value_eqb r r' && list_eqb inv_eqb i i'
+  | ObRet r i, ObRet r' i' => list_eqb value_eqb r r' && list_eqb ievent_eqb i i'
   | ObPanicNil m, ObPanicNil m' => seqb m m'
-  | ObPanicUser i, ObPanicUser i' => list_eqb inv_eqb i i'
+  | ObPanicUser i, ObPanicUser i' => list_eqb ievent_eqb i i'
+  | ObOutOfFuel i, ObOutOfFuel i' => list_eqb ievent_eqb i i'
   | ObRecords l, ObRecords l' => list_eqb (list_eqb fld_eqb) l l'
   | _, _ => false
   end.
 
 Record case := { c_mock : mock; c_ops : list hop; c_obs : list obs }.
 
-Definition model_obs (c : case) : list obs := map obs_of (trace (c_mock c) init (map to_op (c_ops c))).
+Definition model_obs (c : case) : list obs := map obs_of (trace FUEL (c_mock c) init (map to_op (c_ops c))).
 Definition check_case (c : case) : bool := list_eqb obs_eqb (model_obs c) (c_obs c).
 
 Fixpoint mismatches_from (i : nat) (cs : list case) : list nat :=
